@@ -312,6 +312,10 @@ def check_push(case, rec):
             h = default_halfwidth(kind, v)
             lo = m - h if case["lo"] is None else mpf(case["lo"])
             hi = m + h if case["hi"] is None else mpf(case["hi"])
+        if not lo < hi and case["moments"] != "explicit":
+            # a one-sided bound drawn around the nominal moments, the other one derived from the sample moments: can come out reversed
+            rec.exclude("bounds_not_ordered_for_sample_moments")
+            return
         require(lo < hi, "generator: bounds not ordered", tags)
         width = float(hi - lo)
         scale = abs(float(lo)) + abs(float(hi)) + width
